@@ -118,7 +118,7 @@ class Decider:
                     failed += 1
         return dict(total=self.n_lemmas, checked=len(lem), full=full, loop_exit_folds=len(self.must), failed=failed, secs=round(time.time() - t0, 2))
 
-    def cross(self, timeout=600):
+    def cross(self, timeout=180):
         return cross_check(self.smt, timeout)
 
     def stats(self):
